@@ -892,8 +892,8 @@ def matrix_wiring_clause(ctx, rule, what):
     guarded_clause(ctx, rule, fn, "inverse-vs-qti", body)
 
 
-def run_c16d(ctx):
-    ctx.rule("C16-d", "helpers of the stability test: l21_norm(M) = Σ_j √(Σ_i M[i,j]²), new_identity[i,j] = [i=j], Sub is element-wise")
+def run_c16d(ctx, RID="C16-d"):
+    ctx.rule(RID, "helpers of the stability test: l21_norm(M) = Σ_j √(Σ_i M[i,j]²), new_identity[i,j] = [i=j], Sub is element-wise")
     f = ctx.facts
     R = ctx.roles
 
@@ -921,11 +921,11 @@ def run_c16d(ctx):
         res = I.run_fn(norm.path, [world.matrix("M", "n")])
         i, j = fresh("i"), fresh("j")
         want = ssum(ssum(leaf("M", i, j) * leaf("M", i, j), i, "n").powf(sp.Rational(1, 2)), j, "n")
-        compare(ctx, "C16-d", "l21_norm(M) == Σ_j (Σ_i M[i,j]²)^½", scalar_of(res, "norm"), want, norm.path, "l21-norm", {}, symmetric=())
+        compare(ctx, RID, "l21_norm(M) == Σ_j (Σ_i M[i,j]²)^½", scalar_of(res, "norm"), want, norm.path, "l21-norm", {}, symmetric=())
         I = Interp(f)
         res = I.run_fn(ident.path, [world.matrix("M", "n"), num_size("n")])
         want = Expr.const(1).guarded([("=", "a", "b")])
-        compare(ctx, "C16-d", "new_identity[a,b] == [a=b]", scalar_of(res.at("a", "b"), "identity entry"), want, ident.path, "identity", {"a": "n", "b": "n"},
+        compare(ctx, RID, "new_identity[a,b] == [a=b]", scalar_of(res.at("a", "b"), "identity entry"), want, ident.path, "identity", {"a": "n", "b": "n"},
                 symmetric=())
         subs = [b for b in find_local_impl(ctx, "arith::Sub", "SquareMatrix", "sub")]
         if len(subs) != 1:
@@ -933,9 +933,9 @@ def run_c16d(ctx):
         ctx.fn(subs[0].path)
         I = Interp(f)
         res = I.run_fn(subs[0].path, [world.matrix("A", "n"), world.matrix("B", "n")])
-        compare(ctx, "C16-d", "(A−B)[r,c] == A[r,c] − B[r,c]", scalar_of(res.at("r", "c"), "entry"), leaf("A", "r", "c") - leaf("B", "r", "c"), subs[0].path,
+        compare(ctx, RID, "(A−B)[r,c] == A[r,c] − B[r,c]", scalar_of(res.at("r", "c"), "entry"), leaf("A", "r", "c") - leaf("B", "r", "c"), subs[0].path,
                 "matrix-sub", {"r": "n", "c": "n"}, symmetric=())
-    guarded_clause(ctx, "C16-d", "matrix::SquareMatrix", "stability-helpers", body)
+    guarded_clause(ctx, RID, "matrix::SquareMatrix", "stability-helpers", body)
 
 
 # ---------------------------------------------------------------------------------------------------
@@ -1440,6 +1440,7 @@ def run_c14g(ctx):
     guarded_clause(ctx, "C14-g", gauss.path, "gaussian-count", g)
     # the L of both formulas is the graph's loop number (restated from C03-a)
     restated_clause(ctx, "C14-g", "preprocessing::TropicalGraph::from_graph", "graph-dod", lambda: graph_dod_clause(ctx, "C14-g"))
+    run_c03_loops(ctx, "C14-g", soft=True)
 
 
 # ---------------------------------------------------------------------------------------------------
